@@ -40,6 +40,10 @@ def scenarios(tier, seed):
                 for e in nodes:
                     if e not in q:
                         qes.append((list(q)[::-1], {e: None}))
+            if len(nodes) == 4 and ci == 0:
+                # three query variables (their remaining factors form a chain / share a hidden neighbour), listed in a scrambled order
+                for q in itertools.combinations(nodes, 3):
+                    qes.append(([q[1], q[2], q[0]], {}))
             if tier == "thorough":
                 for q in nodes:
                     for e in itertools.combinations([x for x in nodes if x != q], 2):
